@@ -10,6 +10,13 @@ CLAIMED = {
  'C18': ('exploration', 'reference-model monitor (exact rational arithmetic) over boundary + random inputs',
          'Differential oracle: every decision of the real checkThreshold is compared with an exact math/big reference on a boundary grid and seeded random triples, plus a monotonicity scan; held = no disagreement on what was explored.',
          'Trusts the 20-line reference written from the statement; inputs bounded by free <= total < 2^63.', '4/C18'),
+
+ 'C09': ('exploration', 'differential monitor on generated/mutated URL texts: repeated evaluation in fresh objects, idempotence, shape oracle (net/url), independent RFC 3986 resolver',
+         'Every generated (text,parent) is normalised 8 times in fresh objects by the real NormalizeURL/URL.String; determinism, idempotence, result shape, relative resolution and query order/multiplicity are checked by oracles that never call the code under test.',
+         'Reference resolver applies to an unreserved alphabet where RFC 3986 and WHATWG agree; inputs are sampled, not enumerated.', '4/C09'),
+ 'C11': ('exploration', 'stateless systematic enumeration of pipeline-shaped operation histories on the real model + invariant/oracle at every stage hand-off',
+         'All choice vectors of the stage-operation generator within a small scope (exhaustive flag in evidence), random vectors on scopes to 200 nodes, and all small trees x status assignments; structure, CheckConsistency, dedupe (one node per URL, no URL lost) and completion iff nothing pending are asserted after every step.',
+         'The operation generator mirrors which model calls the stages make in the pinned code; exhaustive only within the stated scope.', '4/C11'),
 }
 NOT_BUILT = 'check not built yet in this session (planned, see DESIGN.md section 4)'
 
